@@ -203,8 +203,8 @@ def analyse(chk, prop):
                     ks = list(range(M))
                     if M > 64 and chk.tier == "quick":
                         ks = sorted(set(list(range(0, M, max(1, M // 32))) + [0, 1, 2, M - 3, M - 2, M - 1]))
-                    elif M > 800:
-                        ks = sorted(set(list(range(0, M, max(1, M // 96))) + [0, 1, M - 2, M - 1]))
+                    elif M > 256:
+                        ks = sorted(set(list(range(0, M, max(1, M // 128))) + [0, 1, 2, M - 3, M - 2, M - 1]))
                     bad = None
                     und = None
                     checked = 0
